@@ -301,6 +301,7 @@ RESET_TIMER:
 		if len(s.bufptr) > 0 {
 			n = copy(b, s.bufptr)
 			s.bufptr = s.bufptr[n:]
+			s.renotifyReaders()
 			s.mu.Unlock()
 			atomic.AddUint64(&DefaultSnmp.BytesReceived, uint64(n))
 			return n, nil
@@ -311,6 +312,7 @@ RESET_TIMER:
 			// from kcp.recv() to 'b', like 'DMA'.
 			if len(b) >= size {
 				s.kcp.Recv(b)
+				s.renotifyReaders()
 				s.mu.Unlock()
 				atomic.AddUint64(&DefaultSnmp.BytesReceived, uint64(size))
 				return size, nil
@@ -329,6 +331,7 @@ RESET_TIMER:
 			n = copy(b, s.recvbuf)   // then copy bytes to 'b' as many as possible
 			s.bufptr = s.recvbuf[n:] // pointer update
 
+			s.renotifyReaders()
 			s.mu.Unlock()
 			atomic.AddUint64(&DefaultSnmp.BytesReceived, uint64(n))
 			return n, nil
@@ -935,6 +938,15 @@ func (s *UDPSession) notifyReadEvent() {
 	select {
 	case s.chReadEvent <- struct{}{}:
 	default:
+	}
+}
+
+// renotifyReaders passes the read event on when data is left after a Read:
+// the event channel holds a single token, so a second goroutine blocked in
+// Read would otherwise sleep on readable data. Called with s.mu held.
+func (s *UDPSession) renotifyReaders() {
+	if len(s.bufptr) > 0 || s.kcp.PeekSize() > 0 {
+		s.notifyReadEvent()
 	}
 }
 
